@@ -42,7 +42,15 @@ def RULE(tier):
     )
 
 
+SUITE_CONTRACTS = True   # thorough tier also runs the repository's own tests under vlib/suite_plugin.py
+_SUITE_REQUIRED = ['suite:block_value_checks', 'suite:plans_drained']
+
+
 def REQUIRED(tier):
+    return _required(tier) + (_SUITE_REQUIRED if tier == "thorough" else [])
+
+
+def _required(tier):
     return [
         "plans_accepted", "plans_rejected_before_yield", "blocks_yielded", "regime:lastread<skipback", "regime:gulp>nsamps",
         "regime:block_crosses_file_boundary", "regime:partial_last_block_before_eof", "regime:gulp_not_dividing",
